@@ -553,9 +553,10 @@ func VH10c_close_window() {
 // of the socket is left: no listening address, no dialer still trying, no
 // goroutine, no timer, no open connection, no pipe id.
 func VH10d_close_race() {
-	protos := []string{"pair", "req", "pub", "xbus"}
+	protos := []string{"pair", "req", "pub", "xbus", "rep", "respondent", "sub", "surveyor"}
 	proto := protos[verif.Choice("proto", len(protos))]
 	lab := "C10/" + proto + "/close-race"
+	var raced mangos.Context // a context that OpenContext handed out while Close was under way
 	sock := vp.New(proto)
 	vt.Install()
 	verif.Assert(sock.SetOption(mangos.OptionDialAsynch, true) == nil, lab+"/asynch")
@@ -569,6 +570,13 @@ func VH10d_close_race() {
 	}
 	var tps []*vt.Pipe
 	last := -1
+	// Close may be issued before or after the other calls (all of them are under way together either way): with
+	// Close first, one stall in the middle of Close lets a call run against the half-closed socket
+	var clErr error
+	var cg *verif.G
+	if verif.Choice("close-issued-first", 2) == 1 {
+		cg = verif.Go("close", func() { clErr = sock.Close() })
+	}
 	for k := 0; k < K; k++ {
 		ev := verif.Choice("ev", 5)
 		verif.Assume(ev > last)
@@ -583,11 +591,18 @@ func VH10d_close_race() {
 		case 3:
 			tps = append(tps, side.L.Connect("p1"))
 		case 4:
-			park("open-context", func() error { _, e := sock.OpenContext(); return e })
+			park("open-context", func() error {
+				c, e := sock.OpenContext()
+				if e == nil {
+					raced = c
+				}
+				return e
+			})
 		}
 	}
-	var clErr error
-	cg := verif.Go("close", func() { clErr = sock.Close() })
+	if cg == nil {
+		cg = verif.Go("close", func() { clErr = sock.Close() })
+	}
 	verif.Quiesce()
 	verif.Assert(cg.Done() && clErr == nil, lab+"/close-does-not-return")
 	if !cg.Done() {
@@ -598,6 +613,18 @@ func VH10d_close_race() {
 		if c.g.Done() {
 			verif.Assert(c.err == nil || closedErr(c.err), lab+"/"+c.name+"-unexpected-error")
 		}
+	}
+	if raced != nil {
+		// the context was handed out while the socket was closing: it belongs to a closed socket - a call on it
+		// fails with a closed error (or the unsupported-operation / no-request error) instead of blocking
+		var rerr error
+		rg := verif.Go("recv-on-raced-context", func() { _, rerr = raced.RecvMsg() })
+		verif.Quiesce()
+		verif.Assert(rg.Done(), lab+"/recv-blocks-on-a-context-opened-while-the-socket-was-closing")
+		if rg.Done() {
+			verif.Assert(rerr != nil, lab+"/recv-on-a-context-of-a-closed-socket-delivers")
+		}
+		verif.Reach("close-race-context")
 	}
 	verif.Assert(verif.PendingCallbackTimers() == 0, lab+"/stoppable-timer-still-armed-after-close")
 	dials := 0
